@@ -93,6 +93,9 @@ func verifCheck(vt *Model, w, h int) {
 	zzverif.Assert(vt.cursor.row >= 0 && int(vt.cursor.row) < h, "cursor-row-in-screen")
 	zzverif.Assert(vt.cursor.col >= 0 && int(vt.cursor.col) < w, "cursor-col-in-screen")
 	zzverif.Assert(verifMarginOK(vt, w, h), "margins-ordered-in-screen")
+	// part of the representation invariant: the charset designation table exists (a later
+	// designation, ESC ( 0 and friends, stores into it)
+	zzverif.Assert(vt.charsets.designations != nil, "charset-designation-table-present")
 }
 
 // VerifC05Step: one control function from an arbitrary state satisfying I, with free
